@@ -337,6 +337,9 @@ func (x *Exec) heapArr(st *State, class, sort string) string {
 }
 
 func (x *Exec) havocHeap(st *State, why string) {
+	if os.Getenv("GOVC_DEBUG") != "" {
+		fmt.Fprintln(os.Stderr, "HAVOC heap:", why)
+	}
 	x.epochCtr++
 	st.epoch = x.epochCtr
 	st.heap = map[string]string{}
@@ -350,6 +353,9 @@ func (x *Exec) havocHeap(st *State, why string) {
 
 // havocClasses forgets the contents of the heap classes with the given prefixes only.
 func (x *Exec) havocClasses(st *State, prefixes []string) {
+	if os.Getenv("GOVC_DEBUG") != "" {
+		fmt.Fprintln(os.Stderr, "HAVOC classes:", prefixes)
+	}
 	x.epochCtr++
 	for _, p := range prefixes {
 		for c := range st.heap {
